@@ -19,11 +19,11 @@ func defGenMethod(args slip.List, p *slip.Printer) Node {
 	var dm DefGenMethod
 	// expect name [qualifier] specifiers [doc] forms*
 	sym, _ := args[0].(slip.Symbol)
-	dm.name = &Leaf{text: []byte(sym)}
+	dm.name = &Leaf{text: sym.Readably(nil, p)}
 	args = args[1:]
 
 	if sym, _ = args[0].(slip.Symbol); 0 < len(sym) {
-		dm.qual = &Leaf{text: []byte(sym)}
+		dm.qual = &Leaf{text: sym.Readably(nil, p)}
 		args = args[1:]
 	}
 	dm.sll = argsFromList(args[0], p)
